@@ -111,11 +111,27 @@ def make_segy_traces(path, traces, headers, dt_us=4000, t0=0, fmt=1, ext=0):
 
 def vendor_bytes(path):
     """Non-zero content in the parts of the binary file header no SEG-Y revision assigns (a vendor tag): a copy that goes
-    through named fields only loses it."""
+    through named fields only loses it.  The assigned two-byte fields that do not drive how the traces are read (everything
+    in 3200-3259 except sample interval, sample count and format code) get arbitrary content as well, values above 255
+    included (both bytes of a field in use)."""
+    import os
+    import random as _random
+    r = _random.Random(os.path.getsize(path))
     with open(path, 'r+b') as f:
         for lo, hi in ((3300, 3500), (3520, 3600)):
             f.seek(lo)
             f.write(bytes(1 + (7 * i + lo) % 250 for i in range(hi - lo)))
+        f.seek(3200)
+        b = bytearray(f.read(60))
+        for off in [4, 8, 12, 14, 18, 22, 26, 28] + list(range(30, 60, 2)):
+            if off in (16, 20, 24):
+                continue
+            width = 4 if off in (4, 8) else 2
+            kind = r.choice(['zero', 'small', 'big', 'neg'])
+            v = {'zero': 0, 'small': r.randint(1, 255), 'big': r.randint(256, 32767), 'neg': -r.randint(1, 32768)}[kind]
+            b[off:off + width] = int(v).to_bytes(width, 'big', signed=True)
+        f.seek(3200)
+        f.write(bytes(b))
 
 
 def field_range(k):
